@@ -68,16 +68,21 @@ def errInsufficientResource : String := "insufficient"
 
 /-- `NodeResourceInfo.Validate` (usage present).  The Go code returns one of three `ErrInvalid…`
     values depending on map iteration order; the harness maps all of them to `invalid`. -/
-def NodeInfo.validate (i : NodeInfo) : Bool :=
+def NodeInfo.validateCpu (i : NodeInfo) : Bool :=
   !i.cap.cpuMap.isEmpty &&
   i.use.cpuMap.all (fun (cpu, used) =>
-    i.cap.cpuMap.has cpu && decide (0 ≤ i.cap.cpuMap.get cpu) && decide (used ≤ i.cap.cpuMap.get cpu)) &&
-  (i.cap.numa.isEmpty ||
+    i.cap.cpuMap.has cpu && decide (0 ≤ i.cap.cpuMap.get cpu) && decide (used ≤ i.cap.cpuMap.get cpu))
+
+/-- the `if len(n.Capacity.NUMA) > 0 { … }` block -/
+def NodeInfo.validateNuma (i : NodeInfo) : Bool :=
+  i.cap.numa.isEmpty ||
     (i.cap.cpuMap.all (fun (cpu, _) =>
         match numaOf i.cap.numa cpu with
         | none => false
         | some n => i.cap.numaMem.has n) &&
      i.cap.numaMem.all (fun (n, m) =>
-        decide (0 ≤ m) && decide (0 ≤ i.use.numaMem.get n) && decide (i.use.numaMem.get n ≤ m))))
+        decide (0 ≤ m) && decide (0 ≤ i.use.numaMem.get n) && decide (i.use.numaMem.get n ≤ m)))
+
+def NodeInfo.validate (i : NodeInfo) : Bool := i.validateCpu && i.validateNuma
 
 end Eru.CpuMem
